@@ -1828,7 +1828,12 @@ unit(name="SrcKmpLps", props="property C08", file="src/pattern_matching/kmp.rs",
      aliases={"Lps": "Vec<usize>"},
      functions=[dict(name="lps", lean="lps", header="fn lps(pattern: &[u8]) -> Lps",
                      params=[("pattern", "&[u8]")], ret="Lps", locals={"q": "usize"},
-                     fuel=["q + 1"], theorem="RbV.Thm.GenSrcKmpLps.lps_eq_model")])
+                     fuel=["q + 1"], theorem="RbV.Thm.GenSrcKmpLps.lps_eq_model"),
+                dict(name="KMP::delta", lean="delta", header="fn delta(&self, mut q: usize, a: u8) -> usize",
+                     aliases={"TextSlice": "&[u8]"},
+                     self_fields=[("m", "usize"), ("lps", "Lps"), ("pattern", "TextSlice")],
+                     params=[("q", "usize"), ("a", "u8")], ret="usize",
+                     fuel=["q + 1"], theorem="RbV.Thm.GenSrcKmpLps.delta_eq_model")])
 
 
 unit(name="SrcShiftAndMasks", props="property C08", file="src/pattern_matching/shift_and.rs",
